@@ -199,3 +199,28 @@ Proof.
   { destruct uo; [apply filter_In in Hin; tauto|exact Hin]. }
   destruct Hin' as [<-|Hin']; [left; reflexivity|]. exact (sched_dest h t0 s Hin').
 Qed.
+
+(* nothing else: every all-nodes RA the scheduler emits answers a multicast trigger of the last 3 s *)
+Lemma sched_justified h : forall last tprev s, hist_ok tprev h -> In s (multi_times (sched last h)) ->
+  exists t, In (t, ReqMulti) h /\ t <= s <= t + 3 * sec.
+Proof.
+  pose proof sec_pos as Hsec.
+  induction h as [|[t q] h IH]; intros last tprev s Hh Hin; [destruct Hin|].
+  destruct Hh as (Ht & Hq & Hh).
+  cbn [sched] in Hin. destruct (sched_step last t q) as [last' out] eqn:E.
+  rewrite multi_times_app in Hin. apply in_app_or in Hin. destruct Hin as [Hin|Hin].
+  - assert (Hm := multi_times_step last t q). rewrite E in Hm. cbn [snd] in Hm.
+    destruct q as [|dst r].
+    + rewrite Hm in Hin by exact I. rewrite minDelay_is in Hin.
+      destruct (Z.ltb_spec t last); [destruct Hin|]. destruct Hin as [<-|[]].
+      exists t. split; [left; reflexivity|slia].
+    + rewrite Hm in Hin by tauto. destruct Hin.
+  - destruct (IH last' t s Hh Hin) as (t' & Ht' & Hr). exists t'. split; [right; exact Ht'|exact Hr].
+Qed.
+
+Lemma run_justified t0 h s : hist_ok t0 h -> In s (multi_times (run_sends false t0 h)) ->
+  s = t0 \/ exists t, In (t, ReqMulti) h /\ t <= s <= t + 3 * sec.
+Proof.
+  intros Hh Hin. rewrite run_multi_times in Hin. destruct Hin as [<-|Hin]; [left; reflexivity|].
+  right. exact (sched_justified h t0 t0 s Hh Hin).
+Qed.
